@@ -492,7 +492,9 @@ impl<'a, T: QueryToRelationTranslator + Copy + Clone> VisitedQueryRelations<'a, 
                         self.translator.try_expr(expr, columns)?,
                     ))
                 }
-                ast::SelectItem::QualifiedWildcard(_, _) => todo!(),
+                ast::SelectItem::QualifiedWildcard(name, _) => {
+                    return Err(Error::other(format!("{name}.* is not supported")))
+                }
                 ast::SelectItem::Wildcard(_) => {
                     // push all names that are present in the from into named_exprs.
                     // for non ambiguous col names preserve the input name
@@ -540,7 +542,7 @@ impl<'a, T: QueryToRelationTranslator + Copy + Clone> VisitedQueryRelations<'a, 
         named_exprs.extend(named_expr_from_select.into_iter());
         // Prepare the GROUP BY
         let group_by = match group_by {
-            ast::GroupByExpr::All => todo!(),
+            ast::GroupByExpr::All => return Err(Error::other("GROUP BY ALL is not supported")),
             ast::GroupByExpr::Expressions(group_by_exprs) => group_by_exprs
                 .iter()
                 .map(|e| self.translator.try_expr(e, columns))
